@@ -42,7 +42,7 @@ CLAIMED["C06"] = {
             "of every other kind) on opaque operands and checks on every feasible non-error path that pushes, pops and "
             "queued popper entries balance; which arms are poppers is derived from the code, not listed. Part B "
             "executes the real Break and Continue arms (eval_break / eval_continue) from every I-state with 0..3 "
-            "(thorough 4) pending entries of any popper / non-popper class above the innermost while/for entry and "
+            "(thorough 5) pending entries of any popper / non-popper class above the innermost while/for entry and "
             "checks I afterwards and that the loop's continuation returns the block count to its pre-loop value. Part C "
             "executes the real Return arm from every I-state of the top-level frame (the one frame that outlives a "
             "return) and checks I afterwards (nothing pending, only the top-level block live).",
